@@ -67,5 +67,10 @@ def run(ctx, ck):
     ck.ob('R-DEP.current-lookup', g.qual, ok, g.loc(), 'source current is the solved current on the feed pulse: ' + why_)
     from .C08 import check_weights
     check_weights(ctx, ck)
+    # every solve starts from a freshly filled matrix: the loads are added to the diagonal with +=, a matrix
+    # kept from the previous solve would carry them twice (rule shared with C14)
+    ck.rule('R-FRESH.solve-order', 'compute(): fill -> loads -> rhs -> solve, each exactly once on every path')
+    from .C14 import check_solve_order
+    check_solve_order(ctx, ck, rule='R-FRESH.solve-order')
     ck.undecided += ['the 1.5 % balance between source, dissipated and radiated power (numeric integration)',
                      'Fresnel reflection branch over real ground', 'dissipation in loads']
